@@ -1,6 +1,6 @@
 (* C14 - Target files decode to exactly the targets they describe, independently. *)
 From Coq Require Import ZArith List Bool.
-From V Require Import Base.Duration Base.Str Model.Flags Model.Targets.
+From V Require Import Base.Duration Base.Str Model.Flags Model.Targets Proofs.TargetsProofs.
 Import ListNotations.
 Open Scope Z_scope.
 
@@ -18,6 +18,69 @@ Proof.
   destruct (t_method t); [congruence|]. destruct (t_url t); [congruence|]. reflexivity.
 Qed.
 Print Assumptions json_defaults_merge.
+
+(* HTTP format.  Lines are classified by what strings.TrimSpace leaves of them (so every
+   indentation and spacing is covered): blank, comment ('#...'), request line ("METHOD URL"),
+   header line ("key: value", not starting with '#' or '@'), body line ("@path" of an existing
+   file).  [file_lines ls ts]: ls is a well-formed file describing the targets ts - before each
+   request line any blank and comment lines; after it any comment lines; then either nothing
+   (the next line is blank, a request line or the end) or a block of header lines with comment
+   lines anywhere between them, ended by a blank line, the end of the file or the body line.
+   For every such file, every default body and header set and every file system: the targeter
+   returns exactly the described targets (defaults first, then the target's own header values;
+   the default body only when the target has none), in order, and then reports exhaustion. *)
+Theorem http_decodes_described : forall fs db dh ts ls, file_lines fs db dh ls ts ->
+  forall s, inv s -> lines_of s = ls ->
+  http_calls true fs db dh (S (length ts)) s = map TOk ts ++ [TNoTargets].
+Proof. intros fs db dh ts. exact (http_decodes_lemma fs db dh ts). Qed.
+Print Assumptions http_decodes_described.
+
+(* ... in particular from the bytes of the file (bufio.ScanLines) *)
+Theorem http_decodes_described_bytes : forall fs db dh ts src, file_lines fs db dh (scan_lines src) ts ->
+  http_calls true fs db dh (S (length ts)) (psc_of src) = map TOk ts ++ [TNoTargets].
+Proof.
+  intros fs db dh ts src H. apply (http_decodes_lemma fs db dh ts (scan_lines src) H).
+  - intros X. cbn in X. congruence.
+  - reflexivity.
+Qed.
+
+(* the hypotheses are satisfiable: a file with a leading comment, a comment between request line
+   and headers, two headers (one key repeated in the defaults), a blank line, and a target with a
+   body file *)
+Example file_lines_nontrivial :
+  let fs := [([102], [98;111;100;121])] in          (* "f" -> "body" *)
+  let dh := [([88;45;65], [[100]])] in              (* X-A: d *)
+  let src := [35;32;99;10;  71;69;84;32;104;116;116;112;58;47;47;97;47;10;  32;35;109;10;  88;45;65;58;32;49;10;  89;58;50;10;  10;
+     80;79;83;84;32;104;116;116;112;58;47;47;98;47;10;  64;102;10] in
+  (* "# c\nGET http://a/\n #m\nX-A: 1\nY:2\n\nPOST http://b/\n@f\n" *)
+  http_calls true fs [] dh 3 (psc_of src) =
+  [ TOk {| t_method := [71;69;84]; t_url := [104;116;116;112;58;47;47;97;47]; t_body := [];
+           t_header := [([88;45;65], [[100]; [49]]); ([89], [[50]])] |};
+    TOk {| t_method := [80;79;83;84]; t_url := [104;116;116;112;58;47;47;98;47]; t_body := [98;111;100;121];
+           t_header := dh |};
+    TNoTargets ].
+Proof. vm_compute. reflexivity. Qed.
+
+Example file_lines_satisfiable :
+  (* "# c" / "GET /a" / " X: 1" / "" *)
+  file_lines [] [] [] [[35;32;99]; [71;69;84;32;47;97]; [32;88;58;32;49]; []]
+    [ {| t_method := [71;69;84]; t_url := [47;97]; t_body := []; t_header := [([88], [[49]])] |} ].
+Proof.
+  apply (fl_block [] [] [] [[35;32;99]] [71;69;84;32;47;97] [71;69;84] [47;97] [] [[32;88;58;32;49]] [[]] [([88], [[49]])] [] [] []).
+  - constructor; [right; exists [32;99]; reflexivity | constructor].
+  - unfold request. repeat split; try reflexivity. cbn. intros [H|[H|[H|H]]]; try discriminate; exact H.
+  - constructor.
+  - eapply hb_hdr; [|apply hb_nil]. exists 88, [58;32;49], [88], [32;49]. repeat split; try reflexivity; discriminate.
+  - apply be_blank. reflexivity.
+  - cbn. repeat split; try reflexivity; discriminate.
+  - apply fl_end. constructor.
+Qed.
+
+(* the pinned peeking code (comments not skipped after a request line) breaks the statement *)
+Theorem comment_after_request_refuted :
+  let src := [71;69;84;32;47;97;10; 35;99;10; 71;69;84;32;47;98;10] in     (* "GET /a\n#c\nGET /b\n" *)
+  http_calls false [] [] [] 3 (psc_of src) <> http_calls true [] [] [] 3 (psc_of src).
+Proof. vm_compute. discriminate. Qed.
 
 Example http_example_readme :
   let src := [71;69;84;32;104;116;116;112;58;47;47;97;47;10;35;32;99;10;71;69;84;32;104;116;116;112;58;47;47;98;47;10] in
